@@ -9,13 +9,14 @@ P = {}
 P['C12'] = dict(
   level_text='For every segment, every insertion sequence of up to N cells (widths enumerated, targets and segment bounds symbolic up to 2^22) the solver shows on the real RowLegalizer code: query cost == performed cost, positions ordered/non-overlapping/inside, optimal against an arbitrary symbolic competitor placement, reported costs sum to the placement cost, no UB/assert/contract violation. Universally quantified over coordinates, which tests cannot enumerate.',
   design_ref='DESIGN.md section 3 C12',
-  text=dict(bounds=dict(quick='N<=3 cells, widths 1..3 enumerated, segment and targets symbolic |v|<=2^22 (targets 2^23), VCAP=8',
+  text=dict(bounds=dict(quick='N<=3 cells, widths 1..3 enumerated, and wide cells (H12W: widths 1500 or 3000, width x distance products beyond 2^31), segment and targets symbolic |v|<=2^22 (targets 2^23), VCAP=8',
                         thorough='N<=4 cells, widths 1..3 enumerated (N<=3: symbolic 1..3 as well), segment and targets symbolic |v|<=2^22'),
             outside='more than 4 cells; widths above 3; coordinates beyond 2^22'),
   assumptions=STD_ASSUME + ['cells are inserted only while remainingSpace() >= width (the documented precondition, assumed before each push)'],
   harnesses=[
     dict(name='H12', src='C12_rowleg.cpp', covers=['all pushed'], defines={'VCAP': 10, 'NMAX': 3, 'WMAX': 3}, cfg=dict(fp='exact'),
          thorough=dict(defines={'NMAX': 4})),
+    dict(name='H12W', src='C12_rowleg.cpp', covers=['all pushed'], defines={'VCAP': 10, 'NMAX': 3, 'WMAX': 2, 'WSCALE': 1500}, cfg=dict(fp='exact')),
   ])
 
 P['C14'] = dict(
@@ -118,7 +119,7 @@ C01_BASE = {'VCAP': 8, 'NC': 2, 'NFIXED': 0, 'NROWS': 2, 'TALLCHOICES': 2, 'POLC
 P['C01'] = dict(
   design_ref='DESIGN.md section 3 C01',
   level_text='Circuit::legalize executed end to end by the solver-backed executor on tiny circuits with symbolic geometry: whenever it returns, every movable cell has its bottom edge on a row, each row-high strip inside one free segment of computeRows(), no two movable cells overlap, orientations are as the polarity prescribes; when it throws the placement is unchanged; it does not throw when success is trivial. Widths, initial positions (far outside the rows included), row width, fixed obstruction geometry are symbolic; cell kinds, polarities, row orientation patterns and parameter sets are enumerated.',
-  text=dict(bounds=dict(quick='2 movable cells (cell 0 row-high or 2 rows high), widths symbolic 1..12, x symbolic in [-64,128], y enumerated in {-7,6,19}, 2 rows (N,FS) of symbolic width 8..64, cell 0 all 5 polarities, cell 1 ANY, default ordering parameters; H01T: both cells two rows high (widths 9 and 4), 1 fixed obstruction of symbolic width and x covering all rows (two segments per row), polarity ANY; H01G: one two-row-high cell, 3 rows with an optional one-row gap between rows 1 and 2',
+  text=dict(bounds=dict(quick='2 movable cells (cell 0 row-high or 2 rows high), widths symbolic 1..12, x symbolic in [-64,128], y enumerated in {-7,6,19}, 2 rows (N,FS) of symbolic width 8..64, cell 0 all 5 polarities, cell 1 ANY, default ordering parameters; H01T: both cells two rows high (widths 9 and 4), 1 fixed obstruction of symbolic width and x covering all rows (two segments per row), polarity ANY; H01G: one two-row-high cell, 3 rows with an optional one-row gap between rows 1 and 2; H01P: one two-row-high cell of width 9, 2 rows, 1 fixed obstruction of symbolic width and x covering part of ONE of the rows (stacked rows with different free intervals)',
                         thorough='H01E: 4 row patterns, 8 orientations for ANY cells, 5x5 polarities, 3 ordering parameter sets; H01EY: y symbolic too (3 polarities); H01EF: + 1 fixed cell (obstruction flag, symbolic size/position), 3 rows with optional gap; H01E3: 3 movable cells (widths 4/9)'),
             outside='more than 3 movable cells / 3 rows / 1 fixed cell; several segments per y other than those produced by one obstruction; efforts other than 1 (legalization parameters do not depend on the effort)'),
   assumptions=STD_ASSUME + [BOOST_ASSUME, 'legalization processing order over-approximated: every outcome of each float key comparison is explored (FP havoc), so the claims hold for any processing order'],
@@ -127,6 +128,7 @@ P['C01'] = dict(
          thorough=dict(defines={'ROWPATTERNS': 4, 'ORICHOICES': 8, 'POL1CHOICES': 5, 'PARAMSETS': 3})),
     dict(name='H01T', src='C01_legalize.cpp', covers=['legalize ended', 'legalize returned', 'end'], defines=dict(C01_BASE, YCHOICE=None, WCHOICE=None, NFIXED=1, FIXEDFULL=None, TALLALL=2, POLCHOICES=1, POL1CHOICES=1, ROWPATTERNS=1, VCAP=10), cfg=dict(fp='havoc', time_budget=60), split=3, ir_srcs=ALL_IR, native_srcs=ALL_IR, native_flags=['-llemon']),
     dict(name='H01G', src='C01_legalize.cpp', covers=['legalize ended', 'legalize returned', 'legalize threw', 'end'], defines=dict(C01_BASE, NC=1, YCHOICE=None, WCHOICE=None, TALLALL=2, NROWS=3, GAPCHOICES=2, GAPFROM=2, POLCHOICES=2, POL1CHOICES=1, ROWPATTERNS=1), cfg=dict(fp='havoc'), ir_srcs=ALL_IR, native_srcs=ALL_IR, native_flags=['-llemon']),
+    dict(name='H01P', src='C01_legalize.cpp', covers=['legalize ended', 'legalize returned', 'legalize threw', 'end'], defines=dict(C01_BASE, NC=1, YCHOICE=None, WCHOICE=None, TALLALL=2, NFIXED=1, FIXEDPART=None, POLCHOICES=1, POL1CHOICES=1, ROWPATTERNS=1, VCAP=10), cfg=dict(fp='havoc', time_budget=60), ir_srcs=ALL_IR, native_srcs=ALL_IR, native_flags=['-llemon']),
     dict(name='H01EY', src='C01_legalize.cpp', tiers=('thorough',), covers=['legalize ended', 'end'], defines=dict(C01_BASE, POLCHOICES=3, ROWPATTERNS=1), cfg=dict(fp='havoc', time_budget=900), split=4, ir_srcs=ALL_IR, native_srcs=ALL_IR, native_flags=['-llemon']),
     dict(name='H01EF', src='C01_legalize.cpp', tiers=('thorough',), covers=['legalize ended', 'end'], defines=dict(C01_BASE, YCHOICE=None, NFIXED=1, NROWS=3, GAPCHOICES=2, POLCHOICES=2, TALLCHOICES=2, VCAP=10), cfg=dict(fp='havoc', time_budget=900), split=3, ir_srcs=ALL_IR, native_srcs=ALL_IR, native_flags=['-llemon']),
     dict(name='H01E3', src='C01_legalize.cpp', tiers=('thorough',), covers=['legalize ended', 'end'], defines=dict(C01_BASE, NC=3, VCAP=10, YCHOICE=None, WCHOICE=None, POLCHOICES=2, POL1CHOICES=2), cfg=dict(fp='havoc', time_budget=900), split=2, ir_srcs=ALL_IR, native_srcs=ALL_IR, native_flags=['-llemon']),
@@ -141,6 +143,7 @@ P['C02'] = dict(
   harnesses=[
     dict(name='H02A', src='C02_step.cpp', covers=['constructed', 'swapped', 'inserted', 'end'], defines={'VCAP': 8, 'NCELLS': 3}, cfg=dict(fp='real'), ir_srcs=ALL_IR, native_srcs=ALL_IR, native_flags=['-llemon'],
          thorough=dict(defines={'NCELLS': 4})),
+    dict(name='H02F', src='C02_rows.cpp', covers=['circuit built', 'end'], defines={'VCAP': 12}, cfg=dict(fp='exact'), ir_srcs=ALL_IR, native_srcs=ALL_IR, native_flags=['-llemon']),
     dict(name='H02D', src='C05_shift.cpp', covers=['placer built', 'end'], defines={'VCAP': 16, 'LEMON_POTLIM': 4096, 'LEMON_FLOWMAX': 3}, cfg=dict(fp='havoc', time_budget=100), ir_srcs=ALL_IR, native_srcs=ALL_IR, native_flags=['-llemon']),
     dict(name='H02R', src='C02_reorder.cpp', covers=['placer built', 'end'], defines={'VCAP': 16}, cfg=dict(fp='havoc', time_budget=300, merge=False), split=3, ir_srcs=ALL_IR, native_srcs=ALL_IR, native_flags=['-llemon']),
     dict(name='H02W', src='C02_window.cpp', covers=['placer built', 'end'], defines={'VCAP': 40, 'LEMON_POTLIM': 4096, 'LEMON_FLOWMAX': 3}, cfg=dict(fp='havoc', time_budget=200, merge=False, max_steps=12000000), ir_srcs=ALL_IR, native_srcs=ALL_IR, native_flags=['-llemon']),
@@ -202,6 +205,7 @@ P['C16'] = dict(
     dict(name='H16B', src='C16_density.cpp', covers=['built', 'end'], defines={'VCAP': 8, 'H16B': None, 'NOPS': 3}, cfg=dict(fp='havoc'), ir_srcs=ALL_IR, native_srcs=ALL_IR, native_flags=['-llemon'],
          thorough=dict(defines={'NOPS': 4})),
     dict(name='H16F', src='C16_density.cpp', covers=['grid built', 'end'], defines={'VCAP': 10, 'H16F': None}, cfg=dict(fp='exact'), ir_srcs=ALL_IR, native_srcs=ALL_IR, native_flags=['-llemon']),
+    dict(name='H16SC', src='C16_density.cpp', covers=['spread', 'end'], defines={'VCAP': 8, 'H16S': None, 'CONCDEM': None}, cfg=dict(fp='exact'), ir_srcs=ALL_IR, native_srcs=ALL_IR, native_flags=['-llemon', '-fsanitize=float-cast-overflow'], lib_flags=['-fsanitize=float-cast-overflow']),
     dict(name='H16RO', src='C16_density.cpp', covers=['distributed', 'end'], defines={'VCAP': 8, 'H16R': None, 'OVERFULL': None}, cfg=dict(fp='havoc', time_budget=40), ir_srcs=ALL_IR, native_srcs=ALL_IR, native_flags=['-llemon']),
     dict(name='H16R', src='C16_density.cpp', covers=['distributed', 'end'], defines={'VCAP': 8, 'H16R': None}, cfg=dict(fp='havoc', time_budget=40), ir_srcs=ALL_IR, native_srcs=ALL_IR, native_flags=['-llemon']),
     dict(name='H16C', src='C16_density.cpp', tiers=('thorough',), covers=['built'], defines={'VCAP': 8, 'H16C': None}, cfg=dict(fp='havoc', time_budget=200), split=5, ir_srcs=ALL_IR, native_srcs=ALL_IR, native_flags=['-llemon'],
